@@ -148,15 +148,30 @@ func (s *c35Sender) SupportsHave() bool { return s.h.sh }
 type c35Gate struct {
 	bsmsg.BitSwapMessage
 	h *c35H
+	// set by Remove (only called inside the second critical section), cleared by Empty (called right after
+	// it): AddEntry/Cancel calls in between are made with wllock held (a repaired Finish may rebuild shared
+	// entries there); they belong to the Finish step and must not park.
+	inFinish bool
+}
+
+func (g *c35Gate) Remove(k cid.Cid) {
+	g.inFinish = true
+	g.BitSwapMessage.Remove(k)
 }
 
 func (g *c35Gate) AddEntry(k cid.Cid, prio int32, t pb.Message_Wantlist_WantType, sdh bool) int {
+	if g.inFinish {
+		return g.BitSwapMessage.AddEntry(k, prio, t, sdh)
+	}
 	g.h.atGate.Store(true)
 	g.h.parked <- c35Park{Kind: "entry", C: c35Num(k), T: c35Type(t), Sdh: sdh, K: c35Age(prio, false)}
 	<-g.h.release
 	return g.BitSwapMessage.AddEntry(k, prio, t, sdh)
 }
 func (g *c35Gate) Cancel(k cid.Cid) int {
+	if g.inFinish {
+		return g.BitSwapMessage.Cancel(k)
+	}
 	g.h.atGate.Store(true)
 	g.h.parked <- c35Park{Kind: "cancel", C: c35Num(k), T: 2}
 	<-g.h.release
@@ -164,6 +179,7 @@ func (g *c35Gate) Cancel(k cid.Cid) int {
 }
 func (g *c35Gate) Empty() bool {
 	e := g.BitSwapMessage.Empty()
+	g.inFinish = false
 	vEmit(M{"ev": "Finish", "empty": e})
 	return e
 }
